@@ -1,7 +1,36 @@
-(** C14 — statements about the node model; see Proofs/NodeFacts.v *)
-From Wasp Require Import Model.Base Model.Node.
-From stdpp Require Import list.
+(** C14 — A publish reaches matching subscribers on other nodes exactly once. *)
+From Wasp Require Import Model.Base Spec.MatchSpec Model.DState Model.IdPool Model.Mount Model.Node Proofs.BaseFacts Proofs.MountFacts Proofs.NodeFacts.
+From stdpp Require Import list strings.
 Open Scope Z_scope.
-Theorem C14_model_is_total : ∀ seen cl o, ∃ cl' obs, step seen cl o = (cl', obs).
-Proof. intros. destruct (step seen cl o) as [cl' obs]. by exists cl', obs. Qed.
-Print Assumptions C14_model_is_total.
+
+(** Distribute appends the message at most once to the log of each node in the destination
+    set (the nodes hosting a matching subscription known to the publishing node), exactly once
+    when it reports success, and to no other node's log; unreachable or failing destinations
+    do not stop the others (the fold visits every destination) and make it report failure,
+    which withholds the acknowledgement (C05 [ack_after_store]). *)
+Theorem append_exactly_once : ∀ cl i m, let r := distribute cl i m in
+  quiet (λ x, negb (is_store x)) r.1.2 ∧
+  r.2 = existsb bad_store r.1.2 ∧
+  (r.2 = false → ∀ dst, dst ∈ dests_of cl i m → existsb (stored_at (Z.to_nat (dst - 1)) m) r.1.2 = true) ∧
+  (Forall (λ d : Z, (1 ≤ d)%Z) (dests_of cl i m) → ∀ j, (napp j r.1.2 ≤ 1)%nat) ∧
+  (∀ j, (∀ dst, dst ∈ dests_of cl i m → Z.to_nat (dst - 1) ≠ j) → napp j r.1.2 = 0%nat).
+Proof. exact distribute_spec. Qed.
+Print Assumptions append_exactly_once.
+
+(** each hosting node writes a log entry only to sessions in its own registry that the entry's
+    recipient list names (the recipient list is the matching subscriptions whose peer is this node) *)
+Theorem remote_delivers_local_only : ∀ bad recips n m o, o ∈ (send bad n recips m).2 →
+  ∃ r q s mid, (r, q) ∈ recips ∧ alookup r (n_reg n) = Some s ∧
+    o = Out (ss_conn s) (OPublish (trim_mp (ss_mp s) (l_topic m)) (l_payload m) q (l_retain m) (l_dup m) mid).
+Proof. exact send_only_recipients. Qed.
+Print Assumptions remote_delivers_local_only.
+
+Example c14_history :
+  let run := fold_left (λ st o, let r := step [] st.1 o in (r.1, (st.2 ++ [r.2])%list)) in
+  let ops := [EConnect 1%nat "s1" "c1" "" "" 60 None 10; ESubscribe "s1" 1 [("t/#", 0)] 20;
+              EConnect 2%nat "s2" "c2" "" "" 60 None 30; ESubscribe "s2" 1 [("t/+", 0)] 40;
+              EGossip 1%nat 0%nat; EGossip 2%nat 0%nat; EConnect 0%nat "pub" "cp" "" "" 60 None 50; EUnreachable [2%nat];
+              EPublish "pub" (Publish "t/a" "x" 1 false) false 7 60] in
+  nth 8%nat (run ops (cnew 3%nat, [])).2 [] = [Appended 1%nat "_default/t/a" "x" 1 false; Call 0%nat 1%nat true; Call 0%nat 2%nat false; Deadline "pub" 120000;
+                                        Out "s1" (OPublish "t/a" "x" 0 false false 0)].
+Proof. vm_compute. done. Qed.
